@@ -106,6 +106,12 @@ def value_equal(vc, got, want):
     return vc.eq(got, want)
 
 
+# the standard LRRP constant data table, transcribed (each string preceded by its length): a document may carry it inline - it then
+# is an inline table like any other and has to come back when the document is serialised again
+STANDARD_STRINGS = (b"HIGH", b"NORMAL", b"APCO", b"IPV4", b"IPV6", b"PLMN", b"TETRA", b"USER-SPECIFIED", b"http://", b"http://www.", b"YES", b"NO", b"LTD")
+STANDARD_TABLE = b"".join(bytes([len(x)]) + x for x in STANDARD_STRINGS)
+
+
 def compose(vc, docs):
     """docs: [dict(doc=name, cdt=None|n|'inherit', tokens=[[tid, arg], ...])] -> (octets, expectation per document)"""
     raw = b""
@@ -119,6 +125,9 @@ def compose(vc, docs):
             if d.get("cdt") == "inherit":
                 body += b"\x01"
                 cdt = "inherit"
+            elif d.get("cdt") == "standard":
+                cdt = STANDARD_TABLE
+                body += lit_uintvar(len(cdt)) + cdt
             else:
                 n = d.get("cdt") or 0
                 cdt = vc.bytes_(n, "cdt%d" % di)
@@ -197,6 +206,10 @@ def _sequences(tier, floaty):
         out.append([dict(doc=a, cdt=4, tokens=seq(a, 2)), dict(doc=b, cdt="inherit", tokens=seq(b, 3))])
         out.append([dict(doc=a, cdt=0, tokens=seq(a, 1)), dict(doc=b, cdt="inherit", tokens=seq(b, 0)), dict(doc=a, cdt="inherit", tokens=seq(a, 2))])
         out.append([dict(doc=a, cdt=2, tokens=[]), dict(doc=a + "_NCDT", tokens=seq(a, 2)), dict(doc=b, cdt=3, tokens=seq(b, 2))])
+    # an inline table that happens to be the standard one
+    for a, b in (("LRRP_ImmediateLocationRequest", "LRRP_TriggeredLocationRequest"), ("LRRP_ImmediateLocationReport", "LRRP_UnsolicitedLocationReport")):
+        out.append([dict(doc=a, cdt="standard", tokens=seq(a, 2))])
+        out.append([dict(doc=a, cdt="standard", tokens=seq(a, 1)), dict(doc=b, cdt="inherit", tokens=seq(b, 2))])
     # two documents of DIFFERENT kinds in one buffer, in both orders: every document id meets a request, a report and an
     # answer document (whatever the library remembers per document kind must not carry over to the next document)
     reps = ["LRRP_ImmediateLocationRequest_NCDT", "LRRP_LocationProtocolRequest_NCDT", "LRRP_ImmediateLocationReport_NCDT", "LRRP_LocationProtocolReport_NCDT", "LRRP_TriggeredLocationAnswer_NCDT"]
@@ -236,7 +249,7 @@ def assembled(vc, doc, tokens, cdt=None):
     d = LRRP(document_id=did)
     if not did.value[1]:  # a document with a constant data table carries it
         d.is_constant_table_default = False
-        d.constants_table = vc.bytes_(cdt or 0, "cdt")
+        d.constants_table = STANDARD_TABLE if cdt == "standard" else vc.bytes_(cdt or 0, "cdt")
     want = []
     for ti, (tid, arg) in enumerate(tokens):
         k = tab[tid][0]
